@@ -148,11 +148,34 @@ impl Case {
         self.modes[0].pats.iter().map(|p| rx::print(&p.rx)).collect()
     }
 
+    /// The builder filled through the different entry points (all at once, one by one, or mixed),
+    /// chosen by the shape of the configuration so that every entry point is exercised.
+    fn builder(&self) -> scnr::ScannerBuilder {
+        let modes = self.scnr_modes();
+        let total_pats: usize = self.modes.iter().map(|m| m.pats.len()).sum();
+        match total_pats % 3 {
+            0 => scnr::ScannerBuilder::new().add_scanner_modes(&modes),
+            1 => {
+                let mut b = scnr::ScannerBuilder::new();
+                for m in modes {
+                    b = b.add_scanner_mode(m);
+                }
+                b
+            }
+            _ => {
+                let h = modes.len() / 2;
+                let mut b = scnr::ScannerBuilder::new().add_scanner_modes(&modes[..h]);
+                for m in modes[h..].iter().cloned() {
+                    b = b.add_scanner_mode(m);
+                }
+                b
+            }
+        }
+    }
+
     /// Builds the scanner the way the case prescribes, without the cache.
     pub fn build_uncached(&self) -> scnr::Result<scnr::Scanner> {
-        scnr::ScannerBuilder::new()
-            .add_scanner_modes(&self.scnr_modes())
-            .build_uncached()
+        self.builder().build_uncached()
     }
 
     /// Builds the scanner the way the case prescribes (add_patterns or modes), through the
@@ -163,9 +186,7 @@ impl Case {
                 .add_patterns(self.pattern_strings())
                 .build()
         } else {
-            scnr::ScannerBuilder::new()
-                .add_scanner_modes(&self.scnr_modes())
-                .build()
+            self.builder().build()
         }
     }
 
